@@ -39,6 +39,20 @@ CLAIMED = {
             "LEFT/MID/RIGHT/REPLACE/FIND/SUBSTITUTE/CONCATENATE/CONCAT/TRIM/UPPER/LOWER/EXACT/LEN that compiled formulas call.",
             "Bounds: ASCII text len<=4 (quick) / 5..6 (thorough), positions -1..len+2; TRIM over {' ','a'}* up to length 4; TEXT(x, fmt) is outside the claim (C code without a model).",
             "DESIGN.md 4/C20"),
+    "C01": ("model_checking",
+            "CrossHair symbolic execution of the real ExcelCompiler over enumerated set_value/evaluate history skeletons with symbolic written values, z3 decides every path",
+            "For each template x configuration (no-data workbook, stored-results wrapper, yml/json/pkl reload) x history skeleton the real set_value/_reset/_evaluate/_evaluate_range/"
+            "_gen_graph code runs on solver-chosen values (number, logical, blank, text, close floats) and every cell is compared with a full recompute by an independent model; "
+            "an exhausted path tree means no written value of the domain can leave a stale cell for that history shape.",
+            "Bounds: 5 templates (quick) / 9 (thorough), histories of <=2 (quick) / <=3 writes, ints |v|<=99, texts {'x','7',''}; oracle = independent model with every formula/range value dropped and inputs written directly (same formula evaluator).",
+            "DESIGN.md 4/C01"),
+    "C17": ("model_checking",
+            "CrossHair symbolic execution of the real date functions with the serial day as one symbolic integer over 0..2958465, z3 decides every path",
+            "DATE(date_from_int(n)) = n and the wrapped YEAR/MONTH/DAY = date_from_int for every serial day, WEEKDAY period 7, DATE carry against a Gregorian-rule oracle for all "
+            "(y, m, d) with m in -40..60 and d in 1..60, #NUM! instead of exceptions at the ends of the calendar, YEARFRAC symmetry (bases 2, 3).",
+            "Bounds and gaps: d <= 0 is a recorded known finding; civil-date oracle, EDATE/EOMONTH month arithmetic and YEARFRAC bases 0/1/4 only in the thorough tier (may be inconclusive); "
+            "HOUR/MINUTE/SECOND not yet claimed; trusted: CrossHair's datetime model, calendar.monthrange model.",
+            "DESIGN.md 4/C17"),
 }
 
 NOT_YET = "check not built yet in this round (machinery under construction); see DESIGN.md section 4"
